@@ -169,7 +169,16 @@ pub fn num_same(a: Num, b: Num) -> bool {
 /// `i64::MAX` is present. The code treats that value as outside i64 (`<` instead of `<=`, pinned
 /// by an in-repo unit test): without negatives it then picks u64 (harmless, accepted), with
 /// negatives it falls through to f64 (reported under its own signature).
-pub fn writer_num_type(vals: impl Iterator<Item = Num>) -> (NumericalType, bool) {
+#[derive(Clone, Copy, Debug, PartialEq, Eq)]
+pub enum Quirk {
+    None,
+    /// i64 is the documented answer, a u64 value == i64::MAX is present, no negative value
+    AtI64MaxNoNeg,
+    /// same, together with a negative value
+    AtI64MaxWithNeg,
+}
+
+pub fn writer_num_type(vals: impl Iterator<Item = Num>) -> (NumericalType, Quirk) {
     let mut any_f = false;
     let mut any_neg = false;
     let mut any_gt_i64max = false;
@@ -185,16 +194,21 @@ pub fn writer_num_type(vals: impl Iterator<Item = Num>) -> (NumericalType, bool)
         }
     }
     if any_f {
-        return (NumericalType::F64, false);
+        return (NumericalType::F64, Quirk::None);
     }
     if !any_gt_i64max {
         // i64 can represent everything
-        return (NumericalType::I64, any_eq_i64max);
+        let q = match (any_eq_i64max, any_neg) {
+            (false, _) => Quirk::None,
+            (true, false) => Quirk::AtI64MaxNoNeg,
+            (true, true) => Quirk::AtI64MaxWithNeg,
+        };
+        return (NumericalType::I64, q);
     }
     if !any_neg {
-        return (NumericalType::U64, false);
+        return (NumericalType::U64, Quirk::None);
     }
-    (NumericalType::F64, false)
+    (NumericalType::F64, Quirk::None)
 }
 
 pub fn coerce(v: Num, t: NumericalType) -> Num {
